@@ -206,6 +206,10 @@ def step(w, kind, op):
     if kind == "sorted":
         qs = [w.q(mm, t) for mm, t in op[1]]
         return [enc_q(w, x) for x in sorted(qs)]
+    if kind == "name":
+        # a unit expression that has been anonymous so far gets a name and a symbol (a definition, not an equivalence)
+        u = m.Unit.derive(w.unit(op[1]), op[2], op[3])
+        return u.name
     if kind == "little_stack":
         # the question is asked from deep inside the program's own recursion: only `free` interpreter frames are left,
         # so the search may die of RecursionError anywhere.  The operands are built first, with all the stack there is
